@@ -310,6 +310,10 @@ func cFunctions(src string) map[string]string {
 	return out
 }
 
+// extra emitters (one file per concern, registered from init()): each regenerates
+// further coq/Generated/*.v files from the sources.
+var extraEmitters []func(repo, outDir string) error
+
 func main() {
 	repo := flag.String("repo", "/repo", "")
 	outDir := flag.String("out", "/verif/coq/Generated", "")
@@ -431,6 +435,12 @@ func main() {
 	}
 
 	writeIfChanged(filepath.Join(*outDir, "Consts.v"), sb.String())
+	for _, em := range extraEmitters {
+		if err := em(*repo, *outDir); err != nil {
+			fmt.Fprintln(os.Stderr, "extract:", err)
+			os.Exit(1)
+		}
+	}
 	db, _ := json.MarshalIndent(digests, "", " ")
 	_ = os.MkdirAll(filepath.Dir(*digOut), 0o755)
 	_ = os.WriteFile(*digOut, db, 0o644)
